@@ -150,10 +150,10 @@ namespace TAO_PEGTL_NAMESPACE
 
       void require( const std::size_t amount )
       {
-         if( m_current.data + amount <= m_end ) {
+         if( amount <= buffer_occupied() ) {
             return;
          }
-         if( m_current.data + amount > m_buffer.get() + m_maximum ) {
+         if( amount > buffer_occupied() + buffer_free_after_end() ) {
 #if defined( __cpp_exceptions )
             throw std::overflow_error( "require() beyond end of buffer" );
 #else
